@@ -953,7 +953,7 @@ pub fn gen_struct(u: &mut Un, ix: usize) -> TypeIR {
             attrs.push(format!("group_help({})", lit(&g)));
             explicit_gh = Some(g);
         }
-    } else if u.chance(80) {
+    } else if u.chance(128) {
         match u.below(4) {
             0 => {
                 let h = format!("Explicit header of {}", name);
